@@ -515,7 +515,9 @@ class Dispatcher(BaseDispatcher, Generic[ContextType]):
         try:
             bound_method = method.bind(params, context=context)
         except validators.ValidationError as e:
-            raise pjrpc.exceptions.InvalidParamsError(data=e) from e
+            # plain data (not the exception object): a json dumper that does not go through the server JSONEncoder, such as
+            # flask.json.dumps (its own ``default`` hook shadows the encoder's), could not serialize the exception
+            raise pjrpc.exceptions.InvalidParamsError(data=list(e.args)) from e
 
         try:
             return bound_method()
@@ -662,7 +664,9 @@ class AsyncDispatcher(BaseDispatcher, Generic[ContextType]):
         try:
             bound_method = method.bind(params, context=context)
         except validators.ValidationError as e:
-            raise pjrpc.exceptions.InvalidParamsError(data=e) from e
+            # plain data (not the exception object): a json dumper that does not go through the server JSONEncoder, such as
+            # flask.json.dumps (its own ``default`` hook shadows the encoder's), could not serialize the exception
+            raise pjrpc.exceptions.InvalidParamsError(data=list(e.args)) from e
 
         try:
             result = bound_method()
